@@ -148,19 +148,42 @@ _EXPECTED_NAME_FUNCS = {
 }
 
 
+def _alpha(body, params=()):
+    """Alpha-normalised text of a statement list: every stored local name
+    is renamed v0, v1, ... in order of first occurrence."""
+    mod = ast.parse('\n'.join(ast.unparse(s) for s in body))
+    stored = []
+    for n in ast.walk(mod):
+        if isinstance(n, ast.Name) and isinstance(n.ctx, ast.Store) and \
+                n.id not in stored and n.id not in params:
+            stored.append(n.id)
+    order = []
+    for n in ast.walk(mod):
+        if isinstance(n, ast.Name) and n.id in stored and \
+                n.id not in order:
+            order.append(n.id)
+    ren = {n: f'v{i}' for i, n in enumerate(order)}
+    for n in ast.walk(mod):
+        if isinstance(n, ast.Name) and n.id in ren:
+            n.id = ren[n.id]
+    return ast.unparse(mod)
+
+
 def _body_text(fn):
     body = fn.body
     if body and isinstance(body[0], ast.Expr) and \
             isinstance(body[0].value, ast.Constant) and \
             isinstance(body[0].value.value, str):
         body = body[1:]
-    return '\n'.join(ast.unparse(s) for s in body)
+    return _alpha(body, {a.arg for a in fn.args.args})
 
 
 def check_name_derivation(repo):
     for (mod, qn), expected in _EXPECTED_NAME_FUNCS.items():
         f = repo.func(mod, qn)
         got = _body_text(f.node)
+        expected = _alpha(ast.parse(expected).body,
+                          {a.arg for a in f.node.args.args})
         if got != expected:
             raise AnalysisError(
                 f'{mod}.{qn} changed; the model re-implements its naming '
